@@ -68,6 +68,16 @@ func genC10(o *hx.Out, tier string) {
 						data = append(data, frameBytes(drw, f)...)
 						continue
 					}
+					if !keyed && roll == 4 && r.Intn(2) == 0 {
+						// two or three consecutive frames whose message id is not in the dialect: each is
+						// delivered (as a raw message), whatever was looked up before
+						for q := 0; q < 2+r.Intn(2); q++ {
+							raw := &message.MessageRaw{ID: 4242, Payload: []byte{byte(q + 1), byte(j + 1), 7}}
+							f := &frame.V2Frame{SequenceNumber: byte(q), SystemID: 5, ComponentID: 6, Message: raw, Checksum: uint16(1000 + q)}
+							data = append(data, frameBytes(drw, f)...)
+						}
+						continue
+					}
 					switch roll {
 					case 0: // junk without markers
 						for q := 0; q < 1+r.Intn(5); q++ {
